@@ -194,6 +194,13 @@ def _prep_and_first(i):
         if r == 'unsat':
             _cache_put(h, dict(verdict='unsat', backend='z3-5.1', seconds=secs))
             return i, h, 'unsat', 'z3-5.1', secs, d, None, len(text), False
+        if r == 'unknown':
+            # the other solver straight away, with a short budget (cvc5 decides most of what z3's E-matching leaves open)
+            r2, d2 = _solve_cli(['/usr/bin/cvc5', '--tlimit=10000', '--strings-exp'], text, 10)
+            secs = time.time() - t0
+            if r2 == 'unsat':
+                _cache_put(h, dict(verdict='unsat', backend='cvc5-1.0', seconds=secs))
+                return i, h, 'unsat', 'cvc5-1.0', secs, d2, None, len(text), False
         return i, h, r, 'z3-5.1', secs, d, text, len(text), False
     return i, h, 'todo', '', 0.0, '', text, len(text), False
 
